@@ -280,3 +280,8 @@ pub fn vec_retain<T, F: Fn(&T) -> bool>(v: &mut Vec<T>, f: F)
     requires forall|i: int| 0 <= i < old(v).len() ==> f.requires((&#[trigger] old(v)[i],))
     ensures exists|b: Seq<bool>| b.len() == old(v).len() && (forall|i: int| 0 <= i < old(v).len() ==> f.ensures((&old(v)[i],), #[trigger] b[i])) && final(v)@ == sel(old(v)@, b, old(v).len() as int)
 { v.retain(f) }
+// `v.last()` on a Vec / slice: the last element, if any
+#[verifier::external_body]
+pub fn vec_last<T>(v: &Vec<T>) -> (r: Option<&T>)
+    ensures v.len() == 0 ==> r is None, v.len() > 0 ==> r is Some && *r->Some_0 == v[v.len() - 1]
+{ v.last() }
